@@ -565,6 +565,14 @@ def run_cross_dot_norm(task, c: Ctx):
         rep.count("degenerate_calls:dimension_mismatch")
 
 
+def _eqnum(v, want):
+    """exact numeric equality; a value that is not a single number (array, None, ...) is simply not equal"""
+    try:
+        return float(v) == float(want)
+    except Exception:   # noqa
+        return False
+
+
 def run_det2(task, c: Ctx):
     np, G, g, rep = c.np, c.G, c.g, c.rep
     lat = _lat(L2, 2)
@@ -579,7 +587,7 @@ def run_det2(task, c: Ctx):
             for fname, x, y in forms:
                 ok, v, exc = g.call("det_2x2", G.det_2x2, x, y)
                 c.ev("C12.prim.det_2x2")
-                if not ok or float(v) != float(want):
+                if not ok or not _eqnum(v, want):
                     c.bad("C12.prim.det_2x2", "det_2x2", "mismatch:det" if ok else "raises:" + exc, fname,
                           {"A": list(A), "B": list(B), "got": repr(v), "want": want})
 
@@ -597,14 +605,14 @@ def run_det3(task, c: Ctx):
                 want = X.det3(A, B, C)
                 ok, v, exc = g.call("det_3x3", G.det_3x3, arrs[i], arrs[j], arrs[k])
                 c.ev("C12.prim.det_3x3")
-                if not ok or float(v) != float(want):
+                if not ok or not _eqnum(v, want):
                     c.bad("C12.prim.det_3x3", "det_3x3", "mismatch:det" if ok else "raises:" + exc, "three_vectors",
                           {"A": list(A), "B": list(B), "C": list(C), "got": repr(v), "want": want})
                 if (j + k) % 5 == 0:
                     m = np.array([A, B, C])          # integer matrix form
                     ok, v, exc = g.call("det_3x3", G.det_3x3, m)
                     c.ev("C12.prim.det_3x3")
-                    if not ok or float(v) != float(want):
+                    if not ok or not _eqnum(v, want):
                         c.bad("C12.prim.det_3x3", "det_3x3", "mismatch:det" if ok else "raises:" + exc, "matrix",
                               {"rows": [list(A), list(B), list(C)], "got": repr(v), "want": want})
 
@@ -985,6 +993,15 @@ def run_roots(task, c: Ctx):
                         c.bad(sub, "roots", "mismatch:root_to_the_n", icls, dict(det, got=[repr(r) for r in rs], want_power=repr(target)))
                     elif any(abs(a - b) < 1e-6 for a, b in itertools.combinations(rs, 2)):
                         c.bad(sub, "roots", "mismatch:roots_not_distinct", icls, dict(det, got=[repr(r) for r in rs]))
+                    # a returned container belongs to the caller: emptying it must not change what the next call answers
+                    ok1, r1, _ = g.call("roots", maths.roots, z, n, normalize)
+                    if ok1 and isinstance(r1, list):
+                        del r1[:]
+                        ok2, r2, _ = g.call("roots", maths.roots, z, n, normalize)
+                        c.ev(sub)
+                        if not ok2 or [complex(x) for x in r2] != [complex(x) for x in rs]:
+                            c.bad("C12.effects.returned_value_owned_by_caller", "roots", "side_effect:later_answer_changed", icls,
+                                  dict(det, after_clearing_the_returned_list=repr(r2) if ok2 else "raises"))
 
 
 def run_plane(task, c: Ctx):
